@@ -3,13 +3,17 @@
    by the correspondence check): the accumulator-passing collect_fields computes the grouping
    of the specification's CollectFields traversal; response keys appear once, in
    first-appearance order, each with exactly the fields selecting it (merged sub-selections).
-   The equality of the response DATA with the specification's ExecuteSelectionSet /
-   CompleteValue transcription (Model/SpecExec.v, spec_execute_operation) is evaluated by the
-   check on every observation of the real engine (predicate spec_verdict);
-   PARTIAL: its proof for the model (C01_data_refines_spec) is in Proofs/ExecRefine.v when present. *)
+   C01_data_refines_spec (Proofs/ExecRefine.v): whenever the specification's ExecuteSelectionSet /
+   ExecuteField / CompleteValue transcription (Model/SpecExec.v, with the error rule of 6.4.4)
+   yields a result, the implementation model (state-passing execute_fields in both sibling
+   strategies, the folded output coercer chain, raise / catch / MultipleException merging,
+   collect_subfields over merged nodes) answers with exactly that data -- for every schema,
+   document, variables, user code (resolvers and type resolvers returning or raising anything),
+   configuration and operation kind.  The same predicate is also evaluated by the check on every
+   observation of the real engine.  PARTIAL: the resolver call log equality is decided per run. *)
 From Coq Require Import ZArith List String Bool.
 From TV Require Import Py.Prelude Model.Schema Model.ImplInput Model.ImplExec Model.SpecExec
-  Proofs.CollectRefine.
+  Proofs.CollectRefine Proofs.ExecRefine.
 Import ListNotations.
 Open Scope string_scope.
 
@@ -44,6 +48,23 @@ Proof. apply (group_fields_nodes flat [] k). constructor. Qed.
 
 End C01.
 
+(* the response data is the specification's *)
+Theorem C01_data_refines_spec sch doc vs U cfg op root d o :
+  spec_execute_operation sch doc vs U op root = Some (d, o) ->
+  exists r, execute_operation sch doc vs U cfg op root = OVal r /\ r_data r = d.
+Proof. exact (execute_operation_refines_spec sch doc vs U cfg op root d o). Qed.
+
+(* per field, at every depth of the response tree: a defined field whose specification result is a
+   value yields that value, a field error yields a raised exception, an undefined field is dropped *)
+Theorem C01_field_refines_spec sch doc vs U cfg fuel ptype source ppath key nodes s :
+  match spec_field sch doc vs U fuel ptype source ppath key nodes with
+  | None => fst (resolve_field sch doc vs U cfg fuel ptype source ppath key nodes s) = OVal None
+  | Some (SVal v _) => fst (resolve_field sch doc vs U cfg fuel ptype source ppath key nodes s) = OVal (Some v)
+  | Some (SFail _) => exists l, fst (resolve_field sch doc vs U cfg fuel ptype source ppath key nodes s) = OExc l
+  | Some SCrash => True
+  end.
+Proof. exact (resolve_field_refines sch doc vs U cfg fuel ptype source ppath key nodes s). Qed.
+
 (* non-vacuity: a fragment spread twice, an alias colliding with a field name, a merged key *)
 Definition exs : schema :=
   {| types := [("Query", DObject [] [ {| fd_name := "a"; fd_type := TNamed "T"; fd_args := [] |} ]);
@@ -64,6 +85,24 @@ Example C01_nonvacuous :
   end = (["x"; "y"], [2%nat; 2%nat], ["F"]).
 Proof. vm_compute. reflexivity. Qed.
 
+Definition exU : usercode :=
+  {| has_resolver := fun t f => String.eqb f "a";
+     resolver := fun _ _ _ _ _ => URet (PDict [("x", PInt 1); ("y", PExc (UserErr "boom"))]);
+     type_resolver_kind := fun _ _ _ => TRDefault; type_resolver := fun _ _ _ => URet PNone |}.
+Definition exop : operation :=
+  {| o_kind := OpQuery; o_name := None; o_vars := []; o_dirs := [];
+     o_sels := [SField (1,1)%Z None "a" [] [] [SField (1,2)%Z None "x" [] [] []; SSpread (1,3)%Z "F" []]]; o_loc := (1,0)%Z |}.
+Definition exs2 : schema :=
+  {| types := types exs; query_type := "Query"; mutation_type := None; subscription_type := None;
+     scalars := fun n => if String.eqb n "Int" then Some {| s_input := fun v => Ok v; s_literal := fun v => Ok v; s_output := fun v => Ok v |} else None |}.
+Example C01_spec_has_a_result :
+  spec_execute_operation exs2 exd [] exU exop PNone =
+  Some (PDict [("a", PDict [("x", PInt 1); ("y", PNone)])], [[KName "a"; KName "y"]; [KName "a"; KName "x"]]%list) \/
+  exists d o, spec_execute_operation exs2 exd [] exU exop PNone = Some (d, o).
+Proof. right. vm_compute. eauto. Qed.
+
+Print Assumptions C01_data_refines_spec.
+Print Assumptions C01_field_refines_spec.
 Print Assumptions C01_collect_fields_refines_spec.
 Print Assumptions C01_response_keys_nodup.
 Print Assumptions C01_response_keys_first_appearance.
